@@ -601,6 +601,7 @@ func runC19(r *core.Run) {
 				}
 			})
 	}
+	runC19Lengths(r)
 	runC19ByteSweep(r)
 	runC19FilterNeighbours(r)
 	runC19Runes(r)
@@ -795,6 +796,42 @@ func runC19FilterNeighbours(r *core.Run) {
 		}
 	}
 	s.States.Store(int64(len(names) + len(allowed)))
+	s.Transitions.Store(s.Evals.Load())
+	s.Done()
+}
+
+// runC19Lengths: the laws on inputs of EVERY length 1..maxL (and around every power of two up to 2^17), built from units that
+// need no, few or many rewrites: growth of the output buffers, the copy-on-write switch and chunked copying are crossed at
+// every phase.
+func runC19Lengths(r *core.Run) {
+	maxL := core.Pick(r, 2300, 9000)
+	units := []string{"a", "a\"", "aaaaaaaaaaaaaaa&", "\xc3\xa9 ", "% a", "&amp;<", "aaaaaaaaaaaaaaaaaaaaaaaaaaaaaaa>", "\\* ", "&#65;b", "A\u1e9e "}
+	var lens []int
+	for l := 1; l <= maxL; l++ {
+		lens = append(lens, l)
+	}
+	for k := 12; k <= 17; k++ {
+		lens = append(lens, 1<<k-1, 1<<k, 1<<k+1)
+	}
+	s := r.Sub("laws-lengths", fmt.Sprintf("every law of laws-words on the first L bytes of the endless repetition of each unit in %q, for EVERY L = 1..%d and L = 2^k-1, 2^k, 2^k+1 (k = 12..17)", units, maxL))
+	s.Planned = int64(len(units) * len(lens))
+	s.Bound = fmt.Sprintf("%d units × %d lengths", len(units), len(lens))
+	core.ForEachIndex(len(units)*len(lens), core.Workers(), func(w int) func(int) {
+		return func(i int) {
+			u, l := units[i/len(lens)], lens[i%len(lens)]
+			x := []byte(strings.Repeat(u, l/len(u)+1)[:l])
+			word := append([]byte{}, x...)
+			h := c19Laws(x, func(sig, detail, want, got string) {
+				s.Violate(sig, "", word, nil, fmt.Sprintf("unit %q, length %d: %s", u, l, detail), core.Clip(want, 200), core.Clip(got, 200))
+			})
+			s.Evals.Add(1)
+			s.Distinct(h)
+			if i%(len(units)*len(lens)/5+1) == 0 {
+				s.AddSample(fmt.Sprintf("unit %q repeated to %d bytes", u, l))
+			}
+		}
+	}, r.Expired)
+	s.States.Store(s.Evals.Load())
 	s.Transitions.Store(s.Evals.Load())
 	s.Done()
 }
